@@ -491,7 +491,8 @@ def check_alignment(c, repo):
     c.check(ok, f4, comps[0], 'expect_exact prepares the list with an unfiltered 1:1 comprehension', witness=norm(lc), kind='ast', tag='exact-1to1')
     # prepare_pattern returns a value or raises on every path
     helper = dotted(lc.elt.func) if isinstance(lc.elt, ast.Call) else None
-    hf = f4.nested.get(helper, [None])[0] if helper else None
+    mh = mapped_helper(repo, f4)
+    hf = mh[0] if mh is not None and mh[2] is lc else None
     c.need(hf is not None, 'expect_exact: helper %s not found' % helper)
     hg = hf.cfg
     # paths reaching the normal exit without a return statement (fall off the end) must end in a no-return call
